@@ -295,7 +295,10 @@ namespace detail {
 
         void skip_column()
         {
-            ++name_index_;
+            if (level2_ == 0) // an ignored empty subfield adds nothing to its column; only an empty field moves on to the next one
+            {
+                ++name_index_;
+            }
         }
         
         int level() const
